@@ -7,6 +7,7 @@ import (
 	"fmt"
 	"os"
 	"sync"
+	"time"
 
 	"github.com/ryogrid/SamehadaDB/lib/samehada"
 	"github.com/ryogrid/SamehadaDB/lib/storage/disk"
@@ -48,6 +49,8 @@ type Recorder struct {
 	BaseDB []byte // file contents when the wrapped instance was opened
 	BaseLG []byte
 	Events []Event
+	// LogDelay is slept inside WriteLog before the append is recorded as stable
+	LogDelay time.Duration
 }
 
 // Install arranges for the next NewSamehadaDB to run on a recorded disk manager. name is the
@@ -104,11 +107,20 @@ func (r *Recorder) ShutDown()                      { r.inner.ShutDown() }
 func (r *Recorder) Size() int64                    { return r.inner.Size() }
 func (r *Recorder) RemoveDBFile()                  { r.inner.RemoveDBFile() }
 func (r *Recorder) RemoveLogFile()                 { r.inner.RemoveLogFile() }
+
+// WriteLog records the append when the underlying call has returned (only then the bytes count as stable): a page write
+// issued by another goroutine while the log write is still in progress is ordered before it. LogDelay widens that window
+// (a slow log device) for the goroutine tiers.
 func (r *Recorder) WriteLog(b []byte) error {
+	data := append([]byte{}, b...)
+	err := r.inner.WriteLog(b)
+	if r.LogDelay > 0 {
+		time.Sleep(r.LogDelay)
+	}
 	r.mu.Lock()
-	r.Events = append(r.Events, Event{Kind: EvLog, Data: append([]byte{}, b...)})
+	r.Events = append(r.Events, Event{Kind: EvLog, Data: data})
 	r.mu.Unlock()
-	return r.inner.WriteLog(b)
+	return err
 }
 func (r *Recorder) ReadLog(b []byte, off int32, n *uint32) bool { return r.inner.ReadLog(b, off, n) }
 func (r *Recorder) GetLogFileSize() int64                       { return r.inner.GetLogFileSize() }
@@ -144,12 +156,18 @@ func (r *Recorder) Materialise(k int, tear Tear) Image {
 		switch e.Kind {
 		case EvPage:
 			off := int(e.PageID) * PageSize
-			if len(img.DB) < off+PageSize {
-				img.DB = append(img.DB, make([]byte, off+PageSize-len(img.DB))...)
-			}
 			n := PageSize
 			if last && tear.Bytes < n {
 				n = tear.Bytes
+			}
+			if last && tear.On && len(img.DB) <= off {
+				// torn first write of a page that extends the file: the file simply ends inside the page
+				img.DB = append(img.DB, make([]byte, off-len(img.DB))...)
+				img.DB = append(img.DB, e.Data[:n]...)
+				break
+			}
+			if len(img.DB) < off+PageSize {
+				img.DB = append(img.DB, make([]byte, off+PageSize-len(img.DB))...)
 			}
 			copy(img.DB[off:off+n], e.Data[:n])
 		case EvLog:
@@ -195,4 +213,20 @@ func (r *Recorder) Trace(from, to int) []string {
 		out = append(out, r.Events[i].String())
 	}
 	return out
+}
+
+// ExtendsFile reports whether event i is a page write beyond the end of the database file as it is after events [0,i).
+func (r *Recorder) ExtendsFile(i int) bool {
+	r.mu.Lock()
+	defer r.mu.Unlock()
+	if i < 0 || i >= len(r.Events) || r.Events[i].Kind != EvPage {
+		return false
+	}
+	size := len(r.BaseDB)
+	for _, e := range r.Events[:i] {
+		if e.Kind == EvPage && (int(e.PageID)+1)*PageSize > size {
+			size = (int(e.PageID) + 1) * PageSize
+		}
+	}
+	return int(r.Events[i].PageID)*PageSize >= size
 }
